@@ -80,7 +80,7 @@ Params(f) ==
     [] f = "Riemann2D" -> \* supersonic bottom / top states: pressure, density, Mach number, flow angle (degrees), gamma
                           [pB |-> Pick({<<1, 1>>, <<2, 1>>}, {}), rB |-> Pick({<<1, 1>>}, {<<1, 2>>}), MB |-> Pick({<<12, 5>>, <<3, 1>>}, {<<4, 1>>}),
                            thB |-> Pick({<<0, 1>>, <<5, 1>>}, {<<-5, 1>>}), gB |-> Pick({<<7, 5>>, <<5, 3>>}, {}),
-                           pT |-> Pick({<<1, 2>>, <<1, 1>>}, {<<3, 1>>}), rT |-> Pick({<<1, 4>>, <<1, 1>>}, {}), MT |-> Pick({<<7, 1>>, <<3, 1>>}, {<<2, 1>>}),
+                           pT |-> Pick({<<1, 2>>, <<3, 1>>}, {<<1, 1>>}), rT |-> Pick({<<1, 4>>, <<1, 1>>}, {}), MT |-> Pick({<<7, 1>>, <<3, 1>>}, {<<2, 1>>}),
                            thT |-> Pick({<<0, 1>>, <<-5, 1>>}, {<<10, 1>>}), gT |-> Pick({<<7, 5>>}, {<<5, 3>>})]
     [] f = "RadShock" -> \* Cv in units of the default 1.4472799784454e12 erg/(g eV)
                          [solver |-> Pick({"ED", "nED", "LM_nED"}, {"FLD_LP", "FLD_1", "FLD_2"}), M0 |-> Pick({<<6, 5>>, <<2, 1>>}, {<<21, 20>>, <<3, 1>>, <<5, 1>>}),
